@@ -15,6 +15,9 @@ RECORD_PARAMS = {"values", "motion", "acc", "acceleration", "values0", "values1"
 CPLX_RECORD_PARAMS = {"fas", "stock", "tifq_values", "tifq_vals"}
 DT_PARAMS = {"dt", "step"}
 PERIOD_PARAMS = {"periods", "response_times", "period"}
+SCALAR_PARAMS = {"constant", "xi", "threshold", "ratio", "band", "a_ref", "n_cyc", "cut_off_ratio", "angle",
+                 "width", "freq_window", "f_ch", "target_dt", "tol", "stt", "omega", "t0", "duration", "z_factor",
+                 "r_factor", "n_factor", "displacement", "s2s_travel_time"}
 CONST_ARRAYS = {"fa_frequencies": "Fq", "smooth_fa_frequencies": "F", "smooth_fa_freqs": "F", "freqs": "F",
                 "frequencies": "F", "travel_times": "TT", "surf2depth_travel_times": "TT", "shifts": "K",
                 "time_shifts": "K", "xf": "XF", "x": "X", "x0": "X0", "limits": 2, "xis": "XI"}
@@ -58,6 +61,9 @@ def auto_args(I, state, fi, P, flags="cold", skip_self=True, sig_cls="eqsig.sing
             n = CONST_ARRAYS[p]
             args[p] = AV(kind=K_ARRAY, dtype="real", origin=frozenset(["p:" + p]),
                          shape=(LinExpr(n),), tags=frozenset(["p:" + p]))
+        elif p in SCALAR_PARAMS and p not in fi.defaults:
+            args[p] = AV(kind=K_SCALAR, dtype="real", shape=(), origin=frozenset(["lit"]), tags=frozenset(["p:" + p]),
+                         note="pyscalar")
         elif p in fi.defaults:
             continue  # bound from the literal default
         else:
